@@ -701,8 +701,32 @@ def gen_huge_retry(rng):
     return N, tasks
 
 
+def gen_tiny_timeout(rng):
+    """extreme option values: timeouts far below a millisecond (1 ns .. 1 us) with many retries; handlers honour
+    their context, most attempts time out: Get2 must unblock within R*T of the pick-up (the harness runs on the
+    virtual clock, so nanosecond timeouts are exact)"""
+    N = rng.choice([1, 1, 2, 3])
+    tasks = []
+    now = 0
+    for i in range(rng.range(1, 4)):
+        T = rng.choice([1, 3, 7, 17, 333, 999, 1001])
+        R = rng.choice([1, 2, 5, 20, 50])
+        behs = []
+        for a in range(R):
+            if a == R - 1 and rng.chance(1, 3):
+                behs.append((max(1, T - 1 - 2 * rng.below(2)) if T > 2 else 1, True, 60 + i, 0))   # finishes just in time (T = 1: a tie, handled as such)
+            else:
+                # honours ctx: ends at the deadline (half of them would otherwise run for milliseconds)
+                behs.append((rng.choice([T + 1 + 2 * rng.below(50), 5 * MS + 1 + 2 * rng.below(50)]), True, -1, rng.choice([0, 3])))
+        tasks.append(Task(now, T, R, False, rng.chance(4, 5), behs))
+        now += 16 * rng.range(1, 40) * max(1, (R * T) // 16 + 1)
+    return N, tasks
+
+
 def gen_script(rng, kind):
-    """kind: retry | burst | ties | prompt | stubborn | pcancel | hugeR"""
+    """kind: retry | burst | ties | prompt | stubborn | pcancel | hugeR | tinyT"""
+    if kind == "tinyT":
+        return gen_tiny_timeout(rng)
     if kind == "pcancel":
         return gen_pcancel(rng)
     if kind == "hugeR":
